@@ -244,11 +244,78 @@ def r13d(ctx, run):
                           "the type checker must not use the distinction-losing equivalence")
 
 
+def r13f(ctx, run):
+    """binary operations: the common type of a nominal wrapper and its own (sized) underlying type must not exist.
+    Ty::max decides (non-distinct, Distinct) pairs through has_semantics_of; that predicate is evaluated abstractly for
+    Distinct/EnumVariant over every scalar kind against that same kind."""
+    from absint import Interp, Variant, Term, Panic, CannotEstablish
+    hs = ctx.syn.fn("Ty::has_semantics_of", "hir/src/common/ty.rs")
+    mx = ctx.syn.fn("Ty::max", "hir/src/common/ty.rs")
+    # Ty::max routes mixed pairs through has_semantics_of (anchor of the clause)
+    n_routes = len([c for c in synq.mcalls(mx.body, "has_semantics_of")])
+    run.check(n_routes >= 2, mx.site(), "Ty::max decides (plain, distinct) and (distinct, plain) through has_semantics_of", "Ty::max", "routes", mx.file, mx.ln,
+              "Ty::max no longer decides mixed distinct/plain pairs through has_semantics_of: the nominal clause for binary operations is not established")
+    scalars = {
+        "i32": Variant("Ty::IInt", {"0": 32}), "u8": Variant("Ty::UInt", {"0": 8}), "usize": Variant("Ty::UInt", {"0": 255}), "f32": Variant("Ty::Float", {"0": 32}),
+        "f64": Variant("Ty::Float", {"0": 64}), "bool": Variant("Ty::Bool"), "char": Variant("Ty::Char"), "str": Variant("Ty::String"),
+    }
+    weak = {"{int}": Variant("Ty::IInt", {"0": 0}), "{uint}": Variant("Ty::UInt", {"0": 0}), "{float}": Variant("Ty::Float", {"0": 0})}
+    name = hs.param_names()[1]
+
+    def run_hs(a, b, depth=0):
+        if depth > 4:
+            raise CannotEstablish("recursion depth")
+
+        def fits(i, r, args):
+            # the acceptance relation on these samples: identical types fit; a nominal wrapper never fits a plain type (R13.a);
+            # a weak literal type fits the sized/weak types of its class
+            x, y = r, args[0]
+            if x == y:
+                return True
+            if x.last in ("Distinct", "EnumVariant") or y.last in ("Distinct", "EnumVariant"):
+                return False
+            if x.last in ("IInt", "UInt") and x.payload.get("0") == 0 and y.last in ("IInt", "UInt", "Float"):
+                return True
+            if x.last == "Float" and x.payload.get("0") == 0 and y.last == "Float":
+                return True
+            return False
+        it = Interp(methods={"has_semantics_of": lambda i, r, args: run_hs(r, args[0], depth + 1), "can_fit_into": fits})
+        return it.run_fn(hs, {"self": a, name: b})
+    def run_max(a, b):
+        it = Interp(methods={"has_semantics_of": lambda i, r, args: run_hs(r, args[0], 1), "can_fit_into": fits0,
+                             "is_zero_sized": lambda i, r, args: False},
+                    macros={"assert_eq": lambda i, e, env: None})
+        names = mx.param_names()
+        return it.run_fn(mx, {"self": a, names[1]: b})
+
+    def fits0(i, r, args):
+        return r == args[0]
+    for wrapper in ("Distinct", "EnumVariant"):
+        for kn, kv in scalars.items():
+            payload = {"uid": 7, "sub_ty": kv} if wrapper == "Distinct" else {"enum_uid": 3, "variant_name": Term("n"), "uid": 7, "sub_ty": kv, "discriminant": 0}
+            w = Variant("Ty::" + wrapper, payload)
+            for order, (a, b) in (("wrapper,plain", (w, kv)), ("plain,wrapper", (kv, w))):
+                try:
+                    got = run_max(a, b)
+                except (Panic, CannotEstablish) as c:
+                    run.finding("Ty::max", "mix:%s:%s:%s" % (wrapper, kn, order), mx.file, mx.ln,
+                                "cannot establish Ty::max(%s) for a %s over %s: %s" % (order, wrapper.lower(), kn, getattr(c, "what", c)))
+                    continue
+                none = got is None or (isinstance(got, Variant) and got.last == "None")
+                if not none:
+                    run.finding("Ty::max", "mix:%s:%s" % (wrapper, kn), mx.file, mx.ln,
+                                "Ty::max(%s) of a %s over %s and plain %s is %r: a binary operation mixing a nominal value with a value of its own underlying type "
+                                "is accepted without a cast (has_semantics_of unwraps the wrapper)" % (order, wrapper.lower(), kn, kn, got))
+                    break
+                run.ok(mx.site(), "max(%s) of %s over %s and %s: no common type" % (order, wrapper.lower(), kn, kn))
+
+
 def rules(ctx):
     return [
         Rule("R13.a", "same-kind nominal arms of can_fit_into compare uids only; variant fits only its own enum; no found-side unwrap", 5, r13a),
         Rule("R13.b", "fall-through keeps distinction: literal false, guarded (Distinct|EnumVariant, other) arms, flag forwarded", 10, r13b),
         Rule("R13.c", "explicit casts between nominal wrapper and underlying type are accepted in both directions", 5, r13c),
         Rule("R13.d", "distinction-losing equivalence is called only from cast/codegen sites (who-may-call, resolved)", 8, r13d),
+        Rule("R13.f", "binary operations: a nominal wrapper has no common type with its own sized underlying type (has_semantics_of), literals excepted", 20, r13f),
         Rule("R13.e", "nested nominal pairs keep their identity on the acceptance path", 3, r13e),
     ]
